@@ -16,6 +16,11 @@ EXITF = [RELAY, EXIT_BT, EXIT_IPV8]
 MS = 1000
 
 
+class Gone(Exception):
+    """a scripted scenario cannot continue: the real nodes lack an object the script relies on; the events recorded so far
+    are still validated (the step that lost it is among them)"""
+
+
 class OnionWorld:
     def __init__(self, seed=0, names=("o", "r1", "r2", "x"), exits=("x",), cands=None, first=None, settings=None,
                  origins=("o",)):
@@ -95,6 +100,12 @@ class OnionWorld:
             self.depth += 1
             try:
                 return fn(*a, **k)
+            except KeyError as exc:
+                if self.depth == 1:
+                    # the scenario names a real object (circuit, relay, exit socket) that is not there any more
+                    self.aborted = "%s%r: %r" % (fn.__name__, a, exc)
+                    raise Gone(self.aborted) from exc
+                raise
             finally:
                 self.depth -= 1
         return step
